@@ -18,6 +18,14 @@ B. sequential histories through the public path (ResolveStatusResponseWithGenera
      output of ping: `backend <i> <n>` (status of backend i, its n-th accepted connection overall) / `fallback` /
      `error`, followed by ` | f=<connections accepted so far>`
 
+R. really concurrent probes of reset vs. in-flight load (search for a failing history; harness `partRace`):
+  race held <round> <variant>     history: load of A started (loader parked) · a reader parked inside c.mu · loader released
+                                  with the OLD value · reset() called concurrently · reader released · reset() and load
+                                  returned · get(A) · load(A) with a loader returning NEW
+     output: `<get> <load>` = `miss new` in BOTH linearisations of the model (store before / after reset's section)
+  race stress <round> <n>         n loads of distinct keys race with one reset(); output `stale=<k>`: keys that afterwards
+                                  hold a value whose loader started before reset() was called (model: 0)
+
 Verdict = the property evaluated on the IMPLEMENTATION's output by a monitor that never looks at the model:
   viol:stale-after-reset     an answer's fetch was started before a reset that precedes the request's first action
   viol:wrong-key             an answer / a stored entry was fetched for another key
@@ -271,6 +279,43 @@ def seqPing (s : Sys) (p : PubSt) (proto : Int) (rg : Nat) (ttl : Int) : List Na
     | some v => (s, p, some (i, fetchNo p v))
     | none => seqPing s p proto rg ttl rest
 
+/-! ### part R: the two linearisations of the held-probe history -/
+
+def raceKey : Key := ⟨[65], 765, 0⟩
+
+/-- the probe's history with the in-flight load's store before (`true`) or after (`false`) reset's critical section;
+    result: what `get` and the following `load` return to requests that start after the reset -/
+def raceHeldModel (storeFirst ok : Bool) : String :=
+  let s0 := init [(raceKey, 10, false), (raceKey, 10, true), (raceKey, 10, false)]
+  let mid : List Label := if storeFirst then [.store 0 ok, .reset] else [.reset, .store 0 ok]
+  let s := runLabels s0 ([.check 0, .join 0, .recheck 0] ++ mid ++ [.finish 0, .get 1])
+  let g := match answer s 1 with | some v => (if v.lid = 0 then "hit:old" else "hit:new") | none => "miss"
+  let s := runLabels s [.check 2, .join 2, .recheck 2, .store 2 true, .finish 2]
+  let l := match answer s 2 with | some v => (if v.lid = 0 then "old" else "new") | none => "none"
+  g ++ " " ++ l
+
+def raceCase (args : List String) (impl : String) : String × String :=
+  match args with
+  | ["held", _, v] =>
+    let ok := (v.toNat?.getD 0) % 2 = 0
+    let a := raceHeldModel true ok
+    let b := raceHeldModel false ok
+    let out := if a = b then a else "model-ambiguous"
+    let verdict :=
+      if impl = out then "ok"
+      else if (impl.splitOn "old").length > 1 then "viol:stale-after-reset"
+      else if impl = "hang" ∨ impl = "panic" then "viol:" ++ impl
+      else "viol:unexpected-output"
+    (out, verdict)
+  | ["stress", _, _] =>
+    let verdict :=
+      if impl = "stale=0" then "ok"
+      else if impl.startsWith "stale=" then "viol:stale-after-reset"
+      else if impl = "hang" ∨ impl = "panic" then "viol:" ++ impl
+      else "viol:unexpected-output"
+    ("stale=0", verdict)
+  | _ => ("bad-case", "-")
+
 /-! ### the driver -/
 
 structure DState where
@@ -347,6 +392,7 @@ def dstep (d : DState) (c : Case) : DState × String × String :=
           ({ d with sys := s', mon := m }, "ok | " ++ digest d.keys s', "-")
         | none => (d, "disabled", "-"))
      | _, _ => (d, "bad-case", "-"))
+  | "race", args => let (m, v) := raceCase args c.impl; (d, m, v)
   | "pnew", [nb] =>
     (match nb.toNat? with
      | some n => ({ d with sys := { reqs := [] }, pub := { modes := List.replicate n true, contUp := List.replicate n true } }, "ok", "-")
